@@ -77,10 +77,15 @@ PROPS = {
              'computed-table validity, denotations after every step of random and enumerated histories).',
              bounded=['vlib.rtc.c06'], tb=['swap: bounded only', 'BDD.__del__ (generator expression): bounded only'], design_ref='DESIGN.md 7/C06'),
     'C07': P('exploration',
-             'BDD.swap rewrites two levels in place through temporarily inconsistent tables (five loops over dict views): outside the VC '
-             'generator. Decided by run-time contracts: every function of 3 variables and sampled sets over 4-6 variables under every '
-             'adjacent swap, sifting, reorder-to-order, reorder_to_pairs, reordering off and on, 8 hash seeds (thorough).',
-             proof=False, bounded=['vlib.rtc.c07'], design_ref='DESIGN.md 7/C07'),
+             'BDD.swap rewrites two levels in place through temporarily inconsistent tables (seven loops over dict views, the unique '
+             'table and the counts are wrong in between): its body is outside the VC generator and so are sifting, _sort_to_order and '
+             'reorder_to_pairs, which rest on it. Proved (small): the helpers _low_high and _swap_cofactor return what the node table '
+             'stores, and the argument validation of swap (a prefix contract: ValueError with nothing modified iff the arguments are '
+             'not two adjacent levels / declared names at adjacent levels; otherwise the body is entered with x < y = x + 1). The '
+             'property itself is decided by run-time contracts: every function of 3 variables and sampled sets over 4-6 variables under '
+             'every adjacent swap, sifting, reorder-to-order, reorder_to_pairs, reordering off and on, 8 hash seeds (thorough).',
+             bounded=['vlib.rtc.c07'], tb=['swap body, reorder, _sort_to_order, _reorder_var, reorder_to_pairs: bounded only'],
+             design_ref='DESIGN.md 7/C07'),
     'C08': P('other',
              'Proved (per-operation ledger over the ghost external count of the wrapped manager): Function.__init__ takes exactly one '
              'external reference (none when it raises), __del__ gives back exactly one and is idempotent, and every handle-returning '
